@@ -78,6 +78,9 @@ pub fn generate(g: &mut Gen, thorough: bool) {
             (format!("merc {tail}"), 0.0), (format!("merc lat_0={lat_c} {tail}"), lat_c), (format!("tmerc lat_0={lat_0} {tail}"), lat_0), (format!("btmerc lat_0={lat_0} {tail}"), lat_0),
             (format!("lcc lat_1={p1} lat_0={} {tail}", p1 - s * 4.0), p1 - s * 4.0), (format!("lcc lat_1={p1} {tail}"), p1),
             (format!("laea lat_0={lat_c} lon_0={lon_0} x_0={x_0} y_0={y_0} ellps={ellps}"), lat_c), (format!("somerc lat_0={lat_c} {tail}"), lat_c),
+            // every aspect of laea has its centre: both poles, the equator
+            (format!("laea lat_0=90 lon_0={lon_0} x_0={x_0} y_0={y_0} ellps={ellps}"), 90.0), (format!("laea lat_0=-90 lon_0={lon_0} x_0={x_0} y_0={y_0} ellps={ellps}"), -90.0),
+            (format!("laea lat_0=0 lon_0={lon_0} x_0={x_0} y_0={y_0} ellps={ellps}"), 0.0),
             (format!("omerc latc={lat_c} lonc={lon_0} alpha={alpha} gamma_c={alpha} k_0={k_0} x_0={x_0} y_0={y_0} ellps={ellps} variant"), lat_c),
         ] {
             case(g, "origin", &def, &[x_0, y_0], &[[lon_0.to_radians(), (clat as f64).to_radians(), 0.0, 0.0]], "false-origin");
